@@ -219,6 +219,11 @@ def main(argv=None):
     for fam, focus, rq, rt, params in spec["stages"]:
         if args.stage and args.stage != fam:
             continue
+        if rc == 1:
+            # the verdict is in; a later stage (the compiled executor, say) on a tree that is already known to break the
+            # property could only turn the violation into a harness error (a warm-up that never returns)
+            print(f"stage {fam} skipped: a violation has already been reported")
+            continue
         params = dict(params)
         params["known"] = kparams
         params["tier"] = tier
